@@ -1,5 +1,6 @@
 import Bluebell.Convert
 import Bluebell.Props.C01
+import Bluebell.Lemmas.EscLine
 /-!
 # C13 — a backslash makes the next character literal, everywhere
 
@@ -140,5 +141,29 @@ theorem C13_escaped_line_examples :
 /-- F14: an escaped space at the end of the line — the backslash survives. -/
 theorem C13_counterexample_trailing_space :
     textsOf "p" (convert testUris "" "\\x\\ \n" "statement") = ["x\\"] := by decide +kernel
+
+/-! ## The grammar-level theorem: for every text, every offset, every escaped string
+
+`AtEsc inp p (c :: w)` says: the text at offset `p` reads `\c\w₁\w₂…` followed by a newline, none of
+the escaped characters being a newline. Whatever those characters are — keywords, markers, braces,
+backslashes, attribute syntax — rule `line` of the grammar that executes reads the line as exactly
+that many escape nodes (`line_of_escapes`: no keyword, marker or attribute rule is ever consulted at
+a backslash, and `inline_marker` cannot start at the newline by the first-character analysis of the
+regenerated grammar), and `Line.to_dict` turns them into one paragraph whose only child is the text
+`c w₁ w₂ …` with every escaping backslash gone. Fuel: for all sufficiently large fuel, which by
+`eval_mono` is the meaning of "the result of parsing". -/
+theorem C13_escaped_line_is_its_text (inp : Array Char) (p : Nat) (c : Char) (w : List Char)
+    (h : AtEsc inp p (c :: w)) :
+    ∃ n0, ∀ n, n0 ≤ n → ∃ t, eval aknExec inp n (.ref "line") p = .ok t ∧
+      ∀ fuel, toDict inp (fuel + 2) t
+        = .node "content" "p" none (some [Item.text (String.ofList (c :: w))]) none none none none none := by
+  obtain ⟨n0, h0⟩ := line_of_escapes inp p c w h
+  refine ⟨n0, fun n hn => ?_⟩
+  obtain ⟨te, stop, ht⟩ := h0 n hn
+  exact ⟨_, ht, fun fuel => toDict_line inp fuel p stop te c w h⟩
+
+/-- the hypothesis is satisfiable: a line of escaped keywords and markers in the middle of a text -/
+example : AtEsc "x\n\\P\\A\\R\\T\\ \\{\\{\\*\\*\nmore\n".toList.toArray 2 ['P', 'A', 'R', 'T', ' ', '{', '{', '*', '*'] := by
+  simp [AtEsc]
 
 end Bluebell
